@@ -482,6 +482,7 @@ Proof.
   apply run_task_guard_spec in G.
   destruct (w_canceled s). { expose. split; [apply legal_quiet; solve_quiet|exact I]. }
   destruct (is_complete (w_status s)). { expose. split; [apply legal_quiet; solve_quiet|exact I]. }
+  destruct (status_eqb (w_status s) PAUSED). { expose. split; [apply legal_quiet; solve_quiet|exact I]. }
   cbn [h_commits].
   assert (s_status st = RUNNING) as Hst.
   { apply (Inv i st tk Hs); [eapply nth_error_In; exact Ht|exact G]. }
@@ -651,11 +652,64 @@ Proof.
   - exact Hw.
 Qed.
 
+(* ---- PauseTask / ResumeStage ---- *)
+Lemma legal_pause_task s id i t :
+  chain_legal (w_stages s) (w_status s) (h_commits (handle_pause_task s id i t)).
+Proof.
+  unfold handle_pause_task.
+  destruct (get_stage s i) as [st|] eqn:Hs; [|exact I].
+  destruct (nth_error (s_tasks st) t) as [tk|] eqn:Ht; [|exact I].
+  destruct (is_complete (t_status tk)). { expose. split; [apply legal_quiet; solve_quiet|exact I]. }
+  destruct (can_transition (t_status tk) PAUSED) eqn:C1; cbn [negb orb]; [|exact I].
+  destruct (can_transition (s_status st) PAUSED) eqn:C2; cbn [negb]; [|exact I].
+  expose. split; [|exact I].
+  apply (legal_one_put _ _ [] i st _ (OMark id :: [])); [solve_quiet|solve_quiet|exact Hs|].
+  split; [exact C2|]. simpl. apply tasks_legal_set with tk; assumption.
+Qed.
+
+Lemma legal_put_wf l w i st st' x q2 :
+  forallb quiet q2 = true -> nth_error l i = Some st -> stage_legal st st' -> can_transition w x = true ->
+  legal l w (stages_after l (OPut i st' :: OWf x :: q2)) (wf_after w (OPut i st' :: OWf x :: q2)).
+Proof.
+  intros Hq Hn Hl Hc.
+  assert (stages_after l (OPut i st' :: OWf x :: q2) = list_set l i st') as E1.
+  { change (OPut i st' :: OWf x :: q2) with ([OPut i st'; OWf x] ++ q2). rewrite stages_after_app. simpl.
+    apply stages_after_quiet. exact Hq. }
+  assert (wf_after w (OPut i st' :: OWf x :: q2) = x) as E2.
+  { change (OPut i st' :: OWf x :: q2) with ([OPut i st'; OWf x] ++ q2). rewrite wf_after_app. simpl.
+    apply wf_after_quiet. exact Hq. }
+  rewrite E1, E2. split; [apply stages_legal_set with st; assumption|exact Hc].
+Qed.
+
+Lemma legal_resume_stage s id i :
+  chain_legal (w_stages s) (w_status s) (h_commits (handle_resume_stage s id i)).
+Proof.
+  unfold handle_resume_stage.
+  destruct (get_stage s i) as [st|] eqn:Hs; [|exact I].
+  destruct (status_eqb (s_status st) PAUSED) eqn:E; cbn [negb].
+  2:{ expose. split; [apply legal_quiet; solve_quiet|exact I]. }
+  apply status_eqb_eq in E.
+  destruct (find _ _) as [[ti tk]|] eqn:F.
+  - apply find_combine_nth in F. destruct F as [Hn Hp]. simpl in Hp. apply status_eqb_eq in Hp.
+    assert (stage_legal st (st_set st RUNNING (s_started st) (s_ended st) (s_fired st) (s_branches st) (s_has_exc st)
+                                   (s_ctx st) (s_outs st) (task_set (s_tasks st) ti RUNNING (t_started tk)))) as L.
+    { split; [simpl; rewrite E; reflexivity|]. simpl. apply tasks_legal_set with tk; [exact Hn|rewrite Hp; reflexivity]. }
+    destruct (status_eqb (w_status s) PAUSED) eqn:W; expose; (split; [|exact I]).
+    + apply status_eqb_eq in W. apply legal_put_wf with st; [solve_quiet|exact Hs|exact L|rewrite W; reflexivity].
+    + apply (legal_one_put _ _ [] i st _ (OMark id :: OPush _ :: [])); [solve_quiet|solve_quiet|exact Hs|exact L].
+  - assert (stage_legal st (st_status st RUNNING)) as L.
+    { split; [simpl; rewrite E; reflexivity|simpl; apply Forall2_refl, task_legal_refl]. }
+    destruct (status_eqb (w_status s) PAUSED) eqn:W; expose; (split; [|exact I]).
+    + apply status_eqb_eq in W. apply legal_put_wf with st; [solve_quiet|exact Hs|exact L|rewrite W; reflexivity].
+    + apply (legal_one_put _ _ [] i st _ (OMark id :: [])); [solve_quiet|solve_quiet|exact Hs|exact L].
+Qed.
+
 (* ------------------------------------------------------------------------------------------ *)
 (* every commit of every delivery, recovery sweep and request                                  *)
 (* ------------------------------------------------------------------------------------------ *)
 
-Definition is_jump (m : msg) : bool := match m with MJumpToStage _ _ _ _ => true | _ => false end.
+(* the two re-arm exceptions of the property: a jump, and an operator restart *)
+Definition is_jump (m : msg) : bool := match m with MJumpToStage _ _ _ _ | MRestartStage _ => true | _ => false end.
 
 Lemma legal_handle orc s r :
   running_task_in_running_stage s -> is_jump (q_msg r) = false ->
@@ -673,6 +727,8 @@ Proof.
   - apply legal_run_task. exact Inv.
   - apply legal_complete_task.
   - apply legal_signal_stage.
+  - apply legal_pause_task.
+  - apply legal_resume_stage.
 Qed.
 
 Fixpoint pairwise_legal (s : state) (ss : list state) : Prop :=
@@ -721,6 +777,7 @@ Qed.
 Definition delivers_jump (s : state) (a : action) : Prop :=
   match a with
   | Deliver id _ | DeliverCut id _ => exists r, find_row s id = Some r /\ is_jump (q_msg r) = true
+  | Pause => w_status s <> RUNNING      (* store.pause on a workflow that is not running: operator misuse, unvalidated *)
   | _ => False
   end.
 
@@ -751,6 +808,10 @@ Proof.
     apply legal_quiet. apply quiet_pushes.
   - split; [apply legal_refl|exact I].
   - split; [apply legal_refl|exact I].
+  - split; [apply legal_refl|exact I].
+  - split; [|exact I]. split; [apply stages_legal_refl|].
+    destruct (status_dec (w_status s) RUNNING) as [E|E]; [rewrite E; reflexivity|contradiction].
+  - split; [|exact I]. rewrite stages_apply_commit, wf_apply_commit. apply legal_quiet. apply quiet_pushes.
   - split; [apply legal_refl|exact I].
 Qed.
 
